@@ -629,6 +629,7 @@ func (rs *s3ClientStorage) PutObject(ctx context.Context, bucketName storage.Buc
 	}
 
 	return &storage.PutObjectResult{
+		VersionID:         putObjectResult.VersionId,
 		ETag:              putObjectResult.ETag,
 		ChecksumCRC32:     putObjectResult.ChecksumCRC32,
 		ChecksumCRC32C:    putObjectResult.ChecksumCRC32C,
